@@ -17,7 +17,7 @@ import shutil
 
 from hypothesis import strategies as st
 
-from vf.core import VERIF_DIR, EnumPart, HarnessError, HypPart, Oracle, SkipCase, spsdk_frame
+from vf.core import VERIF_DIR, EnumPart, HarnessError, HypPart, Oracle, SkipCase, case_digest, reorder, spsdk_frame
 from vf.gen import dbenum
 from vf.gen import dbenum_bimg as DBI
 from vf.ref import bimg_layout as L
@@ -534,7 +534,8 @@ def _evaluate(case, o: Oracle, tab: L.Table, m: Mat, eff: int, tname: str) -> No
     if BootableImage is None:
         return
     with o.spsdk("merge", "load_from_config"):
-        bimg = BootableImage.load_from_config(dict(m.cfg), search_paths=[m.dir])
+        # mapping keys in an order picked with the case (a mapping has none)
+        bimg = BootableImage.load_from_config(reorder(dict(m.cfg), int(case_digest(case)[:8], 16)), search_paths=[m.dir])
     if bimg is None and isinstance(req, str):
         # the name form was refused (recorded above); the remaining oracles are evaluated with the same offset as a number
         with o.spsdk("merge", "load_from_config_after_name_refused"):
